@@ -9,6 +9,7 @@ NEXT Next
 INVARIANT Emit
 INVARIANT Antitone
 INVARIANT UnionOfParts
+INVARIANT CTypeIrrelevant
 CHECK_DEADLOCK FALSE
 """
 
@@ -23,7 +24,7 @@ def replay_cases(ctx, recs):
 
 def run(ctx):
     ctx.rule = ("all 2^9 subsets of {elemhide, generichide, jsinject, document, urlblock, genericblock, content, extension, important} "
-                "on an exception rule, plus blocking and absent basic rules; Verdict!CosmeticOption gives the expected option; each "
+                "x 4 content-type modifiers (none, subdocument, script, ~image) on an exception rule, plus blocking and absent basic rules; Verdict!CosmeticOption gives the expected option; each "
                 "case is replayed in two modifier orders through GetCosmeticOption, Engine.MatchRequest and Engine.GetCosmeticResult. "
                 "distinct_nontrivial = cases whose expected option is not 'everything enabled'")
     ctx.build()
@@ -45,7 +46,7 @@ def run(ctx):
         seen.add(k)
         ctx.report("%s on %r: spec %s, code %s" % (m["entry"], m["rule"], m["expected"], m["got"]),
                    {"reexec": ["replay-cosopt"], "input": [m["case"]]},
-                   {"cause": "option-re-enabled" if len(m["got"]) > len(m["expected"]) else "option-lost"})
+                   {"cause": "option-re-enabled" if len(m["got"] or []) > len(m["expected"] or []) else "option-lost"})
 
 
 def replay(ctx, path):
